@@ -849,9 +849,35 @@ func c03Port(c *Ctx, R string) {
 		}
 		la, ha := shape(pr.a)
 		lb, hb := shape(pr.b)
-		if la != lb || ha != "" || hb != "" {
+		// the loops also have to carry the same variables (by name): an index loop rewritten as a range loop, or a loop
+		// that keeps its state in other variables, is a different loop as far as the tables are concerned
+		carried := func(fn *ssa.Function) string {
+			var names []string
+			for _, lp := range naturalLoops(fn) {
+				for _, in := range lp.Header.Instrs {
+					if phi, ok := in.(*ssa.Phi); ok && phi.Comment != "" {
+						declared := false
+						for _, z := range c03Counters[name] {
+							if z == phi.Comment {
+								declared = true // a counter the port adds on purpose (F12)
+							}
+						}
+						if !declared {
+							names = append(names, phi.Comment)
+						}
+					}
+				}
+			}
+			sort.Strings(names)
+			return strings.Join(names, ",")
+		}
+		ca, cb := carried(pr.a), carried(pr.b)
+		if la != lb || ha != "" || hb != "" || ca != cb {
 			nSkipped++
 			why := fmt.Sprintf("%d loops in the port, %d in strconv", la, lb)
+			if la == lb && ca != cb {
+				why = fmt.Sprintf("the loops carry {%s} in the port and {%s} in strconv", ca, cb)
+			}
 			if ha != "" {
 				why += "; the port moves part of the work into " + ha
 			}
